@@ -103,6 +103,24 @@ def replay_streams(pid, v):
     return mism[0] if mism else None
 
 
+def stream_traces(ctx, kinds, n):
+    """impl -> spec: random histories on arbitrary floats recorded from the real streams (with real twins), validated by TLC"""
+    from p_pure import trace_check
+    bindir = build_harness(["streams"])
+    trace_check(ctx, "StreamsTrace", bindir, "streams", [ctx.seed, n, ",".join(kinds)], "floats",
+                "stateful streams on arbitrary floats (category, error identity, timestamp, reset / skip / shift / scale / variant twins, filter bounds)",
+                "streams_trace", timeout=1500)
+
+
+@replayer("streams_trace")
+def replay_streams_trace(pid, v):
+    from p_pure import trace_check
+    ctx = vlib.Ctx(pid + "_replay", "quick", 1)
+    bindir = build_harness(["streams"])
+    ok = trace_check(ctx, "StreamsTrace", bindir, "streams", v["record_args"], "floats", "stateful streams on arbitrary floats", "streams_trace")
+    return None if ok else ctx.violations[0][2]
+
+
 def tier_params(ctx):
     if ctx.tier == "quick":
         return dict(exh_narrow=4, exh_wide=3, sim_num=400, sim_depth=12, rich=False, n_random_concs=1)
@@ -112,7 +130,10 @@ def tier_params(ctx):
 def finish_streams(ctx, summary, total, what):
     ctx.rule = ("TLC enumerates every history of the machine kinds up to the exhaustive bound and random long histories "
                 "(-simulate); each is replayed into the real stream under every concretisation (base time, tick, value "
-                "scale). " + what + " Distinct = distinct abstract history (hash of the emitted line).")
+                "scale). In the other direction random histories of 8..64 events on arbitrary finite floats with intervals from microseconds "
+                "to hours are recorded from the real streams together with real twins (fresh streams restarted at the last absent / error / "
+                "different-set event, the history without absent events, shifted timestamps, power-of-two scaled values, the Quantity variant, "
+                "a second get) and validated event by event by TLC against StreamsTrace.tla / StreamShapes.tla. " + what + " Distinct = distinct abstract history (hash of the emitted line).")
     n = ctx.extra.get("nontrivial_behaviours", 0)
     for i in range(n):
         ctx.nontrivial.add(i)
@@ -126,6 +147,7 @@ def c04(ctx):
     p = (dict(exh_narrow=5, exh_wide=0, sim_num=400, sim_depth=24, rich=False, n_random_concs=2) if ctx.tier == "quick" else
          dict(exh_narrow=4, exh_wide=0, sim_num=4000, sim_depth=64, rich=True, n_random_concs=6))
     mism, summary, total = run_streams(ctx, ["PID"], **p)
+    stream_traces(ctx, ["PID"], 300 if ctx.tier == "quick" else 5000)
     finish_streams(ctx, summary, total,
                    "Each PID behaviour is also fed to the same controller assembled from the crate's difference, integral, "
                    "derivative, none-to-value, product, quantity-to-float and sum streams (compared after every present sample); "
@@ -140,6 +162,7 @@ def c10(ctx):
     p = (dict(exh_narrow=4, exh_wide=0, sim_num=400, sim_depth=16, rich=False, n_random_concs=2, unitgrid_len=2) if ctx.tier == "quick" else
          dict(exh_narrow=4, exh_wide=0, sim_num=4000, sim_depth=64, rich=True, n_random_concs=6, unitgrid_len=3))
     mism, summary, total = run_streams(ctx, kinds, **p)
+    stream_traces(ctx, kinds, 400 if ctx.tier == "quick" else 6000)
     finish_streams(ctx, summary, total,
                    "Input units range over the 7x7 grid (short histories) and a few units (long histories); a wrongly "
                    "dimensioned input to a to-state converter must panic iff dimension checking is compiled in. "
@@ -152,6 +175,7 @@ def c11(ctx):
     p = (dict(exh_narrow=0, exh_wide=4, sim_num=600, sim_depth=14, rich=False, n_random_concs=2) if ctx.tier == "quick" else
          dict(exh_narrow=0, exh_wide=5, sim_num=5000, sim_depth=48, rich=False, n_random_concs=5))
     mism, summary, total = run_streams(ctx, ["CmdPID"], **p)
+    stream_traces(ctx, ["CmdPID"], 300 if ctx.tier == "quick" else 5000)
     finish_streams(ctx, summary, total,
                    "Events: present state sample, absent, two error identities, set(command) with same / other kind / other "
                    "value, for initial commands of all three kinds with distinct gain triples per kind. Non-trivial = a present "
@@ -165,6 +189,7 @@ def c12(ctx):
     p = (dict(exh_narrow=0, exh_wide=4, sim_num=600, sim_depth=16, rich=False, n_random_concs=2) if ctx.tier == "quick" else
          dict(exh_narrow=0, exh_wide=4, sim_num=5000, sim_depth=64, rich=True, n_random_concs=5))
     mism, summary, total = run_streams(ctx, kinds, **p)
+    stream_traces(ctx, kinds, 400 if ctx.tier == "quick" else 6000)
     finish_streams(ctx, summary, total,
                    "Timestamps are non-decreasing (dt 0 = repeated timestamp); windows shorter than a step, equal to it and "
                    "longer than the history; every f32-variant behaviour is also run on the Quantity variant and compared bit "
@@ -178,6 +203,7 @@ def c05(ctx):
     p = tier_params(ctx)
     # C05 is about outcome categories, error identities, resets and purity: numbers are compared by C04/C10/C11/C12
     mism, summary, total = run_streams(ctx, ALL, structure_only=True, **p)
+    stream_traces(ctx, ALL, 600 if ctx.tier == "quick" else 10000)
     finish_streams(ctx, summary, total,
                    "Non-trivial = contains a present sample after an event the kind treats as a reset (or, for kinds "
                    "without resets, at least two present samples).")
